@@ -335,3 +335,20 @@ impl std::ops::Deref for Handle {
 		&self.0
 	}
 }
+
+/// With live workers: wait (bounded) until nothing is queued, logged-unflushed or
+/// flushed-unenacted. Used before dropping a handle opened with the test-only `always_flush`
+/// option: that option can leave more than 4 tiny log files pending, a state in which `drop`
+/// waits for a cleanup worker that has already exited (not reachable with production log
+/// sizes; see DESIGN.md section 11).
+pub fn wait_idle(db: &Db, max: std::time::Duration) -> bool {
+	let t0 = std::time::Instant::now();
+	while t0.elapsed() < max {
+		let st = db.verif_status();
+		if st.queued_commits == 0 && st.read_queue_len == 0 && st.reading.is_none() && st.dirty_logs <= 2 {
+			return true
+		}
+		std::thread::sleep(std::time::Duration::from_millis(5));
+	}
+	false
+}
